@@ -62,6 +62,20 @@ def final(E, path, f):
     return E.read(type('SV', (), {'store': path.store})(), (('P', 'self'), f))
 
 
+def _only_called_from_ops(F, CG, path, depth=0):
+    """is this function reachable only from ArrayBuf's new / push / pop / drop?"""
+    callers = [c for c, _ in CG.callers_of(path)]
+    if not callers or depth > 4:
+        return False
+    for c in callers:
+        cf = F.fn(c) or {}
+        if (cf.get('impl_adt') == ARRAY or '<buffer::ring_buffer::ArrayBuf' in c) and cf.get('name') in ('push', 'pop', 'drop', 'new'):
+            continue
+        if not _only_called_from_ops(F, CG, c, depth + 1):
+            return False
+    return True
+
+
 def positive(E, facts, x):
     """truth of `x > 0` for an unsigned x in any spelling (x > 0, 0 < x, x != 0, !(x == 0), ...): 1 / 0 / None"""
     r = cmp_fact(E, facts, 'Gt', x, ('const', 0))
@@ -181,8 +195,12 @@ def run(C, R):
                     good = False
                     break
                 if positive(E, path.facts, size) != 1:
-                    good = False
-                    break
+                    # `for _ in 0..self.size`: before the k-th drop the path knows k < size-at-entry, i.e. the current
+                    # size (entry size minus k) is positive
+                    k_done = len([1 for kk, _i, _e in ops if _e['eid'] < e['eid']]) if 'eid' in e else None
+                    if k_done is None or cmp_fact(E, path.facts, 'Lt', ('const', k_done), S('size')) != 1:
+                        good = False
+                        break
                 nx = next_of(E, path, recv)
                 if nx is None:
                     good = False
@@ -222,6 +240,9 @@ def run(C, R):
             for wfn, s in scan_field_writes(F, f, 'buffer::ring_buffer'):
                 if wfn.get('impl_adt') == ARRAY and wfn.get('name') in ('push', 'pop', 'drop', 'new'):
                     R.ok('C19.R3', '%s|%s' % (wfn['path'], f))
+                elif _only_called_from_ops(F, C.cg(cfg), wfn['path']):
+                    # a private helper of push / pop / drop: judged inlined into them
+                    R.ok('C19.R3', '%s|%s|helper of push/pop/drop' % (wfn['path'], f))
                 elif ('<buffer::ring_buffer::ArrayBuf' in wfn['path'] or wfn.get('impl_adt') == ARRAY) and \
                         wfn.get('name') in ('len', 'capacity', 'can_push', 'is_empty', 'next_idx'):
                     R.fail('C19.R3', [wfn['path'], f], '%s is written in %s (a report function)' % (f, wfn['path']),
